@@ -77,6 +77,31 @@ def _exc_record(e):
 _PULP_TMP = re.compile(r'[0-9a-f]{32}-pulp\.\w+$')
 
 
+SOLVER_ALIASES = {
+    '-f': '-filename', '-na': '-numagents',
+    '-twopl': '-twosidedpreferencelists', '-pc': '-projectclosures',
+    '-stab': '-stability', '-maxsize': '-maximisesize',
+    '-minsize': '-minimisesize', '-gen': '-generous', '-gre': '-greedy',
+    '-mincost': '-minimisecost', '-minsqcost': '-minimisesquaredcost',
+    '-mincostlsb': '-minimisecostloadsumbalanced',
+    '-lmb': '-loadmaxbalanced', '-lsb': '-loadsumbalanced',
+    '-bf': '-bruteforce'}
+
+
+def _alias(groups, table, seed):
+    """README documents a long spelling for every flag: use it for a seeded
+    subset of the flags."""
+    if not seed:
+        return groups
+    r = random.Random(seed)
+    out = []
+    for g in groups:
+        if g and g[0] in table and r.random() < 0.5:
+            g = [table[g[0]]] + g[1:]
+        out.append(g)
+    return out
+
+
 def build_argv(path, na, twopl, opts):
     """Solver argument vector from the structured option set."""
     if opts.get('raw_argv') is not None:
@@ -104,6 +129,7 @@ def build_argv(path, na, twopl, opts):
         order = [i for i in order if i < len(groups)]
         rest = [i for i in range(len(groups)) if i not in order]
         groups = [groups[i] for i in order + rest]
+    groups = _alias(groups, SOLVER_ALIASES, opts.get('alias_seed'))
     argv = []
     for g in groups:
         argv += g
